@@ -100,6 +100,22 @@ def run(tier, replay=None):
         })
     for d in rep["drift"][:5]:
         print("NOTE model-drift property=C12 %s" % d["detail"])
+    # 2b. what a job is given for its request (spec/SysReqs.tla): clamped to the limits
+    wd2 = vlib.scratch("sysreqs")
+    sr = vlib.run_tlc("SysReqs", "SysReqs.cfg", workdir=wd2, workers=1, timeout=600)
+    if not sr.ok:
+        raise vlib.Infra("SysReqs: the model violates its own theorem: %s" % sr.out[-800:])
+    p = vlib.run_harness(["sysreqs-replay", os.path.join(wd2, "sysreqs_rows.ndjson")], timeout=600)
+    srep = json.loads(p.stdout)
+    for v in srep["violations"] or []:
+        r_ = v["row"]
+        viols.append({"key": "sysreqs:%s:cores=%d,mem=%d,threads=%s,mem_mb=%d" % (v["kind"], r_["cores"], r_["mem"], r_["tc"] / 100, r_["mm"]),
+                      "what": "GetSystemReqs %s: %s" % (v["kind"], v["detail"]),
+                      "replay": {"row.json": json.dumps(r_)}})
+    for d in (srep["drift"] or [])[:3]:
+        print("NOTE model-drift property=C12 GetSystemReqs: %s %s" % (json.dumps(d["row"]), d["detail"]))
+    tlc_cmds.append("SysReqs.cfg: Clamped holds for every request of the grid and limits 1/2/4 cores, 1/2/4 GB; %d rows replayed through LocalJobManager.GetSystemReqs (%d differ from the model)" % (
+        srep["rows"], len(srep["drift"] or [])))
     # 3. cluster mode: --maxjobs with a real RemoteJobManager, the driver plays the
     #    cluster; plain runs and runs in which mrp exits and is restarted while jobs
     #    are queued or running on the cluster (MaxJobs.tla's Exit / Restart)
